@@ -992,7 +992,7 @@ impl Exec {
         let s = |k: &str| op.get(k).and_then(|x| x.as_str()).unwrap_or("");
         match e {
             "bw" => self.wtx.is_none() && self.db.is_some(),
-            "dur" | "2pc" | "qr" | "commit" | "abort" | "dropw" | "rename" | "delete" | "spe" | "spp" | "spdel" | "splist" | "sprestp" => self.wtx.is_some(),
+            "dur" | "2pc" | "qr" | "commit" | "abort" | "dropw" | "dropwp" | "rename" | "delete" | "spe" | "spp" | "spdel" | "splist" | "sprestp" => self.wtx.is_some(),
             "spreste" => self.wtx.is_some() && self.sps.contains_key(s("s")) && self.wtables.is_empty(),
             "open" => self.wtx.is_some() && !self.wtables.contains_key(s("n")),
             "close" | "ins" | "insr" | "getmut" | "entry" | "rem" | "pop" | "retain" | "extract" | "mins" | "mrem" | "mremall" | "cursor" => {
@@ -1021,7 +1021,7 @@ impl Exec {
             if !self.applicable(op) {
                 return vec![json!({"e": "note", "what": "skipped", "step": op["e"]})];
             }
-            if matches!(op["e"].as_str(), Some("commit" | "abort" | "dropw")) && !self.wtables.is_empty() {
+            if matches!(op["e"].as_str(), Some("commit" | "abort" | "dropw" | "dropwp")) && !self.wtables.is_empty() {
                 // handles that the recorded script closed through steps that were skipped
                 let names: Vec<String> = self.wtables.keys().cloned().collect();
                 let mut evs = vec![];
@@ -1051,7 +1051,7 @@ impl Exec {
                 // a panic inside commit/abort has consumed the transaction: keep the event shape
                 match op["e"].as_str() {
                     Some("commit") => vec![json!({"e": "cbegin"}), json!({"e": "cend", "r": {"panic": msg}})],
-                    Some("abort" | "dropw") => vec![json!({"e": "abort", "r": {"panic": msg}})],
+                    Some("abort" | "dropw" | "dropwp") => vec![json!({"e": "abort", "r": {"panic": msg}})],
                     _ => {
                         let mut ev = op.clone();
                         ev["r"] = json!({"panic": msg});
@@ -1125,6 +1125,17 @@ impl Exec {
             "dropw" => {
                 drop(self.take_txn());
                 vec![json!({"e": "abort", "how": "drop", "r": {"ok": 0}})]
+            }
+            "dropwp" => {
+                // the write transaction is dropped while a panic unwinds through it (caught by the application): redb skips
+                // the rollback, the transaction's pages leak until the database is reopened, and no clean shutdown or
+                // allocator snapshot may be recorded meanwhile
+                let t = self.take_txn();
+                let _ = std::panic::catch_unwind(std::panic::AssertUnwindSafe(move || {
+                    let _t = t;
+                    panic!("injected by the harness: a panic unwinds through a live write transaction");
+                }));
+                vec![json!({"e": "abort", "how": "drop-unwinding", "r": {"ok": 0}})]
             }
             "br" => {
                 let h = op["h"].as_str().unwrap().to_string();
@@ -1593,6 +1604,11 @@ impl Exec {
                 evs
             }
             "reopen" => {
+                // a database that needs repair (a write transaction was dropped while a panic unwound through it) records no
+                // clean shutdown when it is closed: what the next open finds is what a crash would have left - the last
+                // durable commit or a later one, pending non-durable commits possibly lost (Kv!Crash instead of Kv!Reopen)
+                let unclean = self.db.as_ref().is_some_and(|d| d.verif_header().needs_repair);
+                let name = if unclean { "crash" } else { "reopen" };
                 self.teardown();
                 let db = builder(&self.cfg).create_with_backend(self.store.backend());
                 match db {
@@ -1600,11 +1616,11 @@ impl Exec {
                         let obs = observe(&db, &self.cx);
                         self.db = Some(db);
                         match obs {
-                            Ok(obs) => vec![json!({"e": "reopen", "obs": obs})],
-                            Err(e) => vec![json!({"e": "reopen", "obs": {"error": er(e)}})],
+                            Ok(obs) => vec![json!({"e": name, "obs": obs})],
+                            Err(e) => vec![json!({"e": name, "obs": {"error": er(e)}})],
                         }
                     }
-                    Err(e) => vec![json!({"e": "reopen", "obs": {"error": er(e)}})],
+                    Err(e) => vec![json!({"e": name, "obs": {"error": er(e)}})],
                 }
             }
             "dump" => {
